@@ -62,6 +62,14 @@ def main():
             n += 1
         save(data)
         print("added", n, "entries for", prop)
+    elif cmd == "add":
+        # tools/findings.py add C02 <signature> <replay.json>   (witness taken from a replay file)
+        prop, sig, path = sys.argv[2], sys.argv[3], sys.argv[4]
+        rep = json.load(open(path))
+        if not any(e["property"] == prop and e["signature"] == sig for e in data["findings"]):
+            data["findings"].append({"property": prop, "signature": sig, "what": "", "witness": rep["detail"]})
+        save(data)
+        print("added", prop, sig)
     elif cmd == "list":
         for e in data["findings"]:
             print(e["property"], e["signature"])
